@@ -835,6 +835,10 @@ func runCase(o *hx.Out, f *hx.Flags, k int, kind string, nops int, corpus func(r
 	r.buildTree()
 	for i := 0; i < nops; i++ {
 		r.randomOp()
+		if os.Getenv("STORE_DEBUG") != "" {
+			got, _ := realSeek(w.nodes[0].st, seekRange{pfx: []byte{0x70}})
+			fmt.Fprintf(os.Stderr, "after op %d: backend 0x70 keys: %s\n", i, showKVs(got))
+		}
 	}
 	r.finalChecks()
 	o.Seen(fmt.Sprintf("%d", k))
